@@ -125,13 +125,14 @@ Bindings(pat, act) ==
        (IF pat.n = act.n /\ Len(pat.a) = Len(act.a) THEN UNION {Bindings(pat.a[j], act.a[j]) : j \in DOMAIN pat.a}
         ELSE UNION {Bindings(pat, g) : g \in {g \in SupersT(act) : g.n = pat.n /\ g # act}})
   ELSE {}
+RECURSIVE Assignable(_, _)
 Resolve(Q, exp) ==
   LET c == CT[Q.n]  ps == c.tp
       self == Cls(Q.n, [j \in DOMAIN ps |-> Var(Unk(ps[j].n), <<>>)])
       um == [x \in {ps[j].n : j \in DOMAIN ps} |-> Var(Unk(x), <<>>)]
       fromExp == IF exp = <<>> THEN {} ELSE LET E == StripW(exp[1]) IN
                  IF Kind(E) # "C" THEN {} ELSE UNION {Bindings(g, E) : g \in {g \in SupersT(self) : g.n = E.n}}
-      fromArgs == IF Len(c.fields) # Len(Q.a) THEN {} ELSE UNION {Bindings(Subst(c.fields[j].t, um), Q.a[j]) : j \in DOMAIN Q.a}
+      fromArgs == IF Len(c.fields) # Len(Q.a) THEN {} ELSE UNION {Bindings(Subst(c.fields[j].t, um), Settle(Q.a[j])) : j \in DOMAIN Q.a}
       sol(x) == LET be == {b \in fromExp : b[1] = Unk(x)}  ba == {b \in fromArgs : b[1] = Unk(x)} IN
                 IF be # {} THEN <<(CHOOSE b \in be : TRUE)[2]>> ELSE IF ba # {} THEN <<(CHOOSE b \in ba : TRUE)[2]>> ELSE <<>>
       m1 == [x \in {ps[j].n : j \in {j \in DOMAIN ps : sol(ps[j].n) # <<>>}} |-> sol(x)[1]]
@@ -141,7 +142,8 @@ Resolve(Q, exp) ==
       ms == [x \in {ps[j].n : j \in DOMAIN ps} |-> LET j == CHOOSE j \in DOMAIN ps : ps[j].n = x IN IF sol2(j) = <<>> THEN Bot ELSE sol2(j)[1]]
   IN [ok |-> \A j \in DOMAIN ps : sol2(j) # <<>>,
       \* the constructor arguments must fit the fields under the solution (it may come from the expected type alone)
-      argsOK |-> Len(c.fields) = Len(Q.a) => \A j \in DOMAIN Q.a : Sub(StripW(Q.a[j]), StripW(Subst(c.fields[j].t, ms))),
+      \* (an argument may itself be pending - a nested diamond gets its expected type from the field)
+      argsOK |-> Len(c.fields) = Len(Q.a) => \A j \in DOMAIN Q.a : Assignable(Q.a[j], Subst(c.fields[j].t, ms)),
       t |-> Cls(Q.n, [j \in DOMAIN ps |-> IF sol2(j) = <<>> THEN Bot ELSE sol2(j)[1]]),
       src |-> [j \in DOMAIN ps |-> IF {b \in fromExp : b[1] = Unk(ps[j].n)} # {} THEN "exp" ELSE IF {b \in fromArgs : b[1] = Unk(ps[j].n)} # {} THEN "args" ELSE "none"]]
 SetToSeqBy(S) == [q \in 1..Cardinality(S) |-> CHOOSE x \in S : Cardinality({y \in S : y < x}) = q - 1]
@@ -155,7 +157,7 @@ ResolveF(Q, exp) ==
       fromExp == IF exp = <<>> THEN {} ELSE LET E == StripW(exp[1]) IN
                  IF retT.k = "V" THEN Bindings(retT, E)
                  ELSE IF Kind(E) # "C" \/ Kind(retT) # "C" THEN {} ELSE UNION {Bindings(g, E) : g \in {g \in SupersT(retT) : g.n = E.n}}
-      fromArgs == UNION {Bindings(Q.a[2 * j + 1], Q.a[2 * j + 2]) : j \in pairs}
+      fromArgs == UNION {Bindings(Q.a[2 * j + 1], Settle(Q.a[2 * j + 2])) : j \in pairs}
       sol(x) == LET be == {b \in fromExp : b[1] = Unk(x)}  ba == {b \in fromArgs : b[1] = Unk(x)} IN
                 IF be # {} THEN <<(CHOOSE b \in be : TRUE)[2]>> ELSE IF ba # {} THEN <<(CHOOSE b \in ba : TRUE)[2]>> ELSE <<>>
       m1 == [x \in {Unk(tps[j].n) : j \in {j \in DOMAIN tps : sol(tps[j].n) # <<>>}} |-> sol(CHOOSE y \in {tps[j].n : j \in DOMAIN tps} : Unk(y) = x)[1]]
@@ -165,8 +167,7 @@ ResolveF(Q, exp) ==
                  ELSE IF tps[j].a # <<>> THEN <<Subst(tps[j].a[1], m1)>> ELSE <<TopT>>
       m2 == [x \in {Unk(tps[j].n) : j \in DOMAIN tps} |-> LET j == CHOOSE j \in DOMAIN tps : Unk(tps[j].n) = x IN IF sol2(j) = <<>> THEN Bot ELSE sol2(j)[1]]
   IN [ok |-> \A j \in DOMAIN tps : sol2(j) # <<>>, t |-> Subst(retT, m2),
-      argsOK |-> \A j \in pairs : Sub(StripW(Q.a[2 * j + 2]), StripW(Subst(Q.a[2 * j + 1], m2)))]
-RECURSIVE Assignable(_, _)
+      argsOK |-> \A j \in pairs : Assignable(Q.a[2 * j + 2], Subst(Q.a[2 * j + 1], m2))]
 Assignable(S, T) ==
   IF S.k = "U" THEN Assignable(S.a[1], T) /\ Assignable(S.a[2], T)
   ELSE IF S.k = "Q" THEN (LET R == Resolve(S, <<T>>) IN R.ok /\ R.argsOK /\ Sub(R.t, StripW(T)))
@@ -436,7 +437,7 @@ Step ==
                 fields == IF known THEN CT[e.t.n].fields ELSE <<>>
                 m == IF known THEN ParamMap(e.t) ELSE EmptyMap IN
             /\ UNCHANGED scopes
-            /\ ts' = Push(Pop(e.nk), IF e.infer /\ known THEN [k |-> "Q", n |-> e.t.n, a |-> [j \in 1..e.nk |-> Settle(Peek(e.nk - j))]] ELSE e.t)
+            /\ ts' = Push(Pop(e.nk), IF e.infer /\ known THEN [k |-> "Q", n |-> e.t.n, a |-> [j \in 1..e.nk |-> Peek(e.nk - j)]] ELSE e.t)
             /\ viol' = viol \cup Chk(known, "Resolved.Class", e.t.n) \cup ChkB(e.t, "new") \cup ChkTV(e.t, "new")
                             \cup (IF known THEN Chk(CT[e.t.n].kind \in {"regular", "builtin"}, "InstantiatedConcrete", e.t.n) ELSE {})
                             \cup (IF known /\ CT[e.t.n].kind # "builtin" THEN Chk(Len(fields) = e.nk, "ArityAdmitted.New", e.t.n) ELSE {})
@@ -478,7 +479,7 @@ Step ==
                                        [k |-> "QF", n |-> e.name,
                                         a |-> <<Up(fr.ret[1], um), Cls("", [j \in DOMAIN fr.tp |-> Var(fr.tp[j].n, IF fr.tp[j].b = <<>> THEN <<>> ELSE <<Up(fr.tp[j].b[1], um)>>)])>>
                                               \o [q \in 1..(2 * Len(gs)) |-> IF q % 2 = 1 THEN Up(ParamFor(fr, e.argnames, gs[(q + 1) \div 2])[1].t, um)
-                                                                                ELSE Settle(Peek(e.nk - gs[q \div 2]))]]
+                                                                                ELSE Peek(e.nk - gs[q \div 2])]]
                                   ELSE Up(fr.ret[1], m))
                     /\ viol' = viol \cup Chk(Covered(fr, e.argnames, IF e.recv THEN Peek(e.nk) ELSE Bot, e.recv), "ArityAdmitted.Call", e.name)
                                     \cup Chk(Len(fr.tp) = Len(e.targs), "ArityAdmitted.TypeArgs", e.name)
